@@ -1,8 +1,8 @@
 #!/bin/bash
 # runs every seeded change against the quick check of its property (plus closely related ones)
-declare -A REL=( [C01]="C01" [C02]="C02 C13" [C03]="C03 C11" [C04]="C04" [C05]="C05" [C06]="C06" [C07]="C07" [C08]="C08 C18" [C09]="C09" [C09b]="C09" [C10]="C10" [C11]="C11" [C12]="C12" [C13]="C13" [C14]="C14" [C15]="C15" [C16]="C16" [C17]="C17" [C18]="C18 C08" [C19]="C19" [C20]="C20" )
+declare -A REL=( [C01]="C01" [C02]="C02 C13" [C03]="C03 C11" [C04]="C04" [C05]="C05" [C06]="C06" [C07]="C07" [C08]="C08 C18" [C09]="C09" [C09x]="C09" [C10]="C10" [C11]="C11" [C12]="C12" [C13]="C13" [C14]="C14" [C15]="C15" [C16]="C16" [C17]="C17" [C18]="C18 C08" [C19]="C19" [C20]="C20" )
 OUT=/verif/seeded/RESULTS.txt; : > $OUT
-for id in ${1:-C01 C02 C03 C04 C05 C06 C07 C08 C09 C09b C10 C11 C12 C13 C14 C15 C16 C17 C18 C19 C20}; do
+for id in ${1:-C01 C02 C03 C04 C05 C06 C07 C08 C09 C09x C10 C11 C12 C13 C14 C15 C16 C17 C18 C19 C20}; do
   /verif/tools/try_seeded.sh $id ${REL[$id]} >> $OUT 2>&1
 done
 echo DONE >> $OUT
